@@ -306,9 +306,9 @@ func (e *Explorer) PathTo(id int) []string {
 }
 
 // RunExplore is the CLI entry: explore cfg and write <out>.states/.trans/.meta.
-func RunExplore(cfg Config, out string, maxStates int) int {
+func RunExplore(cfg Config, out string, maxStates int, depth int) int {
 	t0 := time.Now()
-	e := &Explorer{Cfg: cfg, MaxStates: maxStates, FaultMode: os.Getenv("VERIF_FAULTS"), AuditRate: 7}
+	e := &Explorer{Cfg: cfg, MaxStates: maxStates, FaultMode: os.Getenv("VERIF_FAULTS"), AuditRate: 7, Depth: depth}
 	if v := os.Getenv("VERIF_AUDIT_RATE"); v != "" {
 		fmt.Sscanf(v, "%d", &e.AuditRate)
 	}
@@ -339,5 +339,64 @@ func RunExplore(cfg Config, out string, maxStates int) int {
 	mb, _ := json.Marshal(meta)
 	os.WriteFile(out+".meta", mb, 0644)
 	fmt.Println("EXPLORE-DONE", string(mb))
+	return 0
+}
+
+// RunReplayJSON re-executes an action path on a fresh world and prints {"post": <abstract state>,
+// "panic":…}; with out != "" the last transition is also written as <out>.states/.trans so that
+// TLC can re-validate it.
+func RunReplayJSON(cfg Config, path string, out string, w0 interface{ Write([]byte) (int, error) }) int {
+	w, err := NewWorld(cfg)
+	if err != nil {
+		fmt.Fprintln(w0, "ERR", err)
+		return 2
+	}
+	e := &Explorer{Cfg: cfg}
+	e.w = w
+	acts := splitPath(path)
+	var pre map[string]interface{}
+	var last Result
+	for i, a := range acts {
+		if strings.Contains(a, "!") {
+			w.Ghost.Used["fault"]++
+		}
+		if i == len(acts)-1 {
+			pre = e.keyState(w)
+		}
+		last = w.Do(a, i == len(acts)-1)
+	}
+	post := e.keyState(w)
+	res := map[string]interface{}{"post": post, "panic": last.Panic, "err": last.Err, "crashed": last.Crashed}
+	if out != "" && pre != nil {
+		stf, _ := os.Create(out + ".states")
+		trf, _ := os.Create(out + ".trans")
+		id := 1
+		emit := func(s map[string]interface{}) int {
+			fmt.Fprintf(stf, "{\"id\":%d,\"s\":%s}\n", id, canon(s))
+			id++
+			return id - 1
+		}
+		pid := emit(pre)
+		mids := []int{}
+		for _, m := range last.Mids {
+			m["used"] = post["used"]
+			mids = append(mids, emit(m))
+		}
+		qid := emit(post)
+		a := acts[len(acts)-1]
+		base, fault := a, ""
+		if i := strings.Index(a, "!"); i >= 0 {
+			base, fault = a[:i], a[i+1:]
+		}
+		rec := transRec{Pre: pid, Act: a, Base: base, Fault: fault, Post: qid, Mids: mids, Panic: last.Panic, Err: last.Err != "", Crashed: last.Crashed, Requeue: last.Requeue, Writes: compactWrites(last.Writes)}
+		b, _ := json.Marshal(rec)
+		trf.Write(b)
+		trf.Write([]byte("\n"))
+		stf.Close()
+		trf.Close()
+	}
+	b, _ := json.Marshal(res)
+	w0.Write(b)
+	w0.Write([]byte("\n"))
 	return 0
 }
